@@ -124,7 +124,9 @@ pub fn build(sk: &Value, r: &mut Rng, explicit_only: bool) -> Built {
         let marked = o["marked"].as_bool().unwrap_or(false);
         let script = if fee || o["script"].as_str() == Some("empty") { Script::new() } else if unspendable { Script::from(vec![0x6a, 0x01, 0x42]) }
                      else if o["script"].as_str() == Some("big10000") { Script::from(vec![0x51u8; 10_000]) }
-                     else if o["script"].as_str() == Some("big10001") { Script::from(vec![0x51u8; 10_001]) } else { p2wpkh(r) };
+                     else if o["script"].as_str() == Some("big10001") { Script::from(vec![0x51u8; 10_001]) }
+                     else if o["script"].as_str() == Some("resv50") { Script::from(vec![0x50u8, 0x51]) }
+                     else if o["script"].as_str() == Some("resvba") { Script::from(vec![0xbau8, 0x51, 0x51]) } else { p2wpkh(r) };
         let nonce = if marked {
             let skey = pools::secret_key(r);
             receivers.insert(k, skey);
